@@ -17,6 +17,7 @@ def describe(ck):
     ck.rule("R10b", "update_gaps only adds to gap counts, and what it adds is a sum of new-gap vector entries; make_seq's vectors hold 0 or +1 increments")
     ck.rule("R10c", "make_seq applies one unmodified vector to every member of a group: update_gaps(len, gaps of the same member, vector) for all nsip members")
     ck.rule("R10d", "do_align builds the member list of the merged node as all members of a followed by all members of b, nsip[c] = nsip[a] + nsip[b]")
+    ck.rule("R10f", "the accumulated gap counts are rendered for every sequence, slot j in front of residue j (= R01i): what the merges built is what comes out")
     ck.rule("R10e", "make_seq's two new-gap vectors never overlap and every carrier of gap counts on the way to msa_seq.gaps is at least int wide")
     ck.not_decided += ["correct distribution of the new gap vector over existing gap slots (index arithmetic in update_gaps)"]
 
@@ -498,6 +499,8 @@ def run(ck, progs):
         ck.attempt(r10c, ck, prog)
         ck.attempt(r10d, ck, prog)
         ck.attempt(r10e, ck, prog)
+        from . import c01
+        ck.borrow(c01.r01i, prog, "R10f", ("R01i",))
     return ("Effect summary of create_msa_tree on msa (which paths under msa->sequences are written while aligning); "
             "all uses of msa_seq.gaps in the functions reachable from create_msa_tree; form of every store in update_gaps "
             "and into make_seq's vectors; argument agreement, loop coverage and vector immutability of the update_gaps "
